@@ -801,6 +801,14 @@ def fixed_families(rng):
     F += [("union-named", U, None), ("union-named", arr(U), None), ("union-named", rec("UN", [("u", U), ("t", "int")], namespace="n"), None),
           ("union-named", mp(["null", enum("Color", ["RED", "GREEN"]), fixed("Two", 2), "string"]), None),
           ("union-named", rec("UR", [("d", rec("q.D", [("x", "int")])), ("u", ["null", "q.D", enum("q.E", ["A"])]), ("w", ["q.E", "q.D"])]), None)]
+    # characters that str.splitlines() treats as line boundaries, raw in foreign JSON text
+    LB = rec("LB", [("s", "string"), ("b", "bytes"), ("f", fixed("LBF", 3)), ("m", mp("string")), ("u", ["null", "string", "bytes"])])
+    F.append(("line-boundary-chars", LB, [{"s": "a\u2028b", "b": b"x\x85y", "f": b"\x85\x0a\x1c", "m": {"k\u2029": "v\u0085", "\u0085": ""}, "u": "\u2028"},
+                                          {"s": "\u0085", "b": b"\x85", "f": b"abc", "m": {}, "u": b"\x85\x85"},
+                                          {"s": "\u2029\u2028\u0085\u001c\u000b\u000c", "b": b"", "f": b"\x0b\x0c\x1e", "m": {"\u2028": "\u2029"}, "u": None}]))
+    F.append(("line-boundary-chars", "string", ["\u2028", "x\u0085y", "\u2029z"]))
+    F.append(("line-boundary-chars", "bytes", [b"\x85", b"a\x85"]))
+    F.append(("line-boundary-chars", mp("int"), [{"\u2028": 1, "a\u0085b": 2}]))
     # defaults of every kind
     D = rec("D", [("a", "int", {"default": 7}), ("b", "float", {"default": 1}), ("c", ["null", "string"], {"default": None}),
                   ("d", arr("int"), {"default": [1, 2]}), ("e", mp("int"), {"default": {"k": 1}}), ("f", "bytes", {"default": "\u0000ÿ\u0080a"}),
@@ -812,6 +820,9 @@ def fixed_families(rng):
     F.append(("defaults", rec("D2", [("u", [mp("int"), "null"], {"default": {"a": 1}}), ("v", [arr("string"), "int"], {"default": ["x"]}),
                                      ("w", ["string", "null"], {"default": "dd"}), ("x", arr(["null", "int"]), {"default": []}),
                                      ("y", "int")]), None))
+    F.append(("defaults", rec("D7", [("e", enum("E7", ["A", "B"])), ("e2", "E7", {"default": "B"}), ("f", fixed("F7", 1)), ("f2", "F7", {"default": "x"}),
+                                     ("s", rec("S7r", [("q", "int")])), ("s2", "S7r", {"default": {"q": 5}}), ("u", ["E7", "null"], {"default": "A"}),
+                                     ("a", arr("E7"), {"default": ["A", "B"]}), ("z", "int")]), None))
     F.append(("defaults", rec("D5", [("id", "int"), ("grid", arr(arr("int")), {"default": [[1, 2], [3]]}),
                                      ("index", mp(arr("string")), {"default": {"a": ["x", "y"], "b": []}}),
                                      ("alt", [arr(mp("int")), "null"], {"default": [{"k": 1}, {}]}),
@@ -861,14 +872,24 @@ class SmallData(gen.DataGen):
     def size(self):
         return self.rng.choice([0, 0, 1, 1, 2, 2, 3, 4]) if self.rng.random() < 0.95 else self.rng.choice([7, 17])
 
+    SPECIAL = ["\u2028", "\u2029", "\u0085", "\u007f", "\u00a0", "\ufeff", "\u001c", "\u000b", "\u000c", "\r", "\n", "\t", '"', "\\"]
+
     def string(self):
         s = gen.DataGen.string(self)
-        return s if len(s) <= 8 or self.rng.random() < 0.1 else s[:self.rng.choice([1, 2, 5, 8])]
+        s = s if len(s) <= 8 or self.rng.random() < 0.1 else s[:self.rng.choice([1, 2, 5, 8])]
+        if self.rng.random() < 0.12:      # line-boundary characters of str.splitlines, quotes, controls
+            i = self.rng.randrange(len(s) + 1)
+            s = s[:i] + self.rng.choice(self.SPECIAL) + s[i:]
+        return s
 
     def bytes_(self, n=None):
         if n is None and self.rng.random() < 0.8:
             n = self.rng.choice([0, 1, 2, 3, 7])
-        return gen.DataGen.bytes_(self, n)
+        b = gen.DataGen.bytes_(self, n)
+        if len(b) > 0 and self.rng.random() < 0.15:      # 0x85 = U+0085 in the ISO-8859-1 string; 0x0a, 0x1c, 0x22, 0x5c
+            i = self.rng.randrange(len(b))
+            b = b[:i] + bytes([self.rng.choice([0x85, 0x85, 0x0a, 0x0d, 0x1c, 0x22, 0x5c, 0xa0])]) + b[i + 1:]
+        return b
 
 
 def gen_cases(ctx, n):
@@ -1093,6 +1114,34 @@ def check_case(ctx, c, ms, stats):
                               found_input=False)
             break
 
+    # ---- corr:json-read-foreign : the same spec documents as another encoder may write them: non-ASCII characters raw (among them
+    #      U+0085, U+2028, U+2029, which str.splitlines() treats as line boundaries), one document per line, with and without a final newline
+    if outs is not None:
+        raw_text = "\n".join(json.dumps(d, ensure_ascii=False) for d in spec_docs)
+        if raw_text != text:
+            ctx.count("corr:json-read-foreign", key, nontrivial=nontriv)
+            stats["foreign_with_line_boundary_chars"] = stats.get("foreign_with_line_boundary_chars", 0) + \
+                (1 if re.search("[\u0085\u2028\u2029]", raw_text) else 0)
+            for variant, t2 in (("raw", raw_text), ("raw+final-newline", raw_text + "\n"), ("raw+compact", "\n".join(
+                    json.dumps(d, ensure_ascii=False, separators=(",", ":")) for d in spec_docs))):
+                rf = impl_json_read(c.parsed, t2)
+                if rf[0] == "ok" and len(rf[1]) == len(outs) and all(same_by_value(a, b) for a, b in zip(rf[1], outs)):
+                    continue
+                def failsf(m):
+                    ds = docs_of(m)
+                    x = impl_json_read(m.parsed, "\n".join(json.dumps(d, ensure_ascii=False) for d in ds))
+                    y = impl_json_read(m.parsed, "\n".join(json.dumps(d) for d in ds))
+                    return not (x[0] == "ok" and y[0] == "ok" and len(x[1]) == len(y[1]) and all(same_by_value(a, b) for a, b in zip(x[1], y[1])))
+                m = minimise(c, failsf)
+                feat = "raw-line-boundary-character" if re.search("[\u0085\u2028\u2029]", t2) else "raw-non-ascii-text"
+                ctx.violation("corr:json-read-foreign", dict(m.to_json(), text=t2[:1500], variant=variant),
+                              impl=("json_reader %s %s" % (rf[0], rf[1]))[:600] if rf[0] != "ok" else " | ".join(show_val(x) for x in rf[1])[:1500],
+                              model="; ".join(want)[:1500],
+                              signature="C15:json_reader:%s:%s" % (feat, rf[1] if rf[0] != "ok" else "records-differ-from-escaped-text"),
+                              found_input=True, detail="valid JSON text with unescaped non-ASCII characters (same documents as the escaped "
+                              "text, which json_reader reads correctly) is not read back to the written records")
+                break
+
     # ---- corr:json-vs-binary
     ctx.count("corr:json-vs-binary", key, nontrivial=nontriv)
     for m in ms:
@@ -1275,6 +1324,8 @@ def default_feature(f, named):
     """named predicate over the deleted field: what kind of default the reader had to supply"""
     if nested_union_in_default(f["default"], f["type"], named):
         return "default-with-nested-union"
+    if isinstance(f["type"], str) and f["type"] not in PRIMS:
+        return "default-of-type-given-by-name"
     k = dkind(f["type"], named)
     if k == "union":
         k = "union-of-" + dkind(resolve(f["type"], named)[0], named)
